@@ -118,14 +118,14 @@ Proof. vm_compute. repeat split; discriminate. Qed.
 
 (* ---------- (3) loading a database text yields exactly what is written in it ---------- *)
 (* for every document d (Spec/DbDocSpec.v: blank lines, comments, classes, ua_os, the five section headers,
-   labels, signatures, sys lines) outside the known class: loading its text gives its denotation — same
+   labels, signatures, sys lines): loading its text gives its denotation — same
    entries, same order, under the right table and label; None (rejected) exactly when a signature has no
    label before it in its table *)
 Theorem C06_db_load :
-  forall d : list item, doc_ok d = true -> known_doc d = false -> load (render_text d) = flatten d.
+  forall d : list item, doc_ok d = true -> load (render_text d) = flatten d.
 Proof. exact load_render_text. Qed.
 Check C06_db_load :
-  forall d : list item, doc_ok d = true -> known_doc d = false -> load (render_text d) = flatten d.
+  forall d : list item, doc_ok d = true -> load (render_text d) = flatten d.
 Print Assumptions C06_db_load.
 
 Definition ex_doc : list item :=
@@ -136,7 +136,7 @@ Definition ex_doc : list item :=
     ILabel {| l_ty := LGeneric; l_class := None; l_name := bs "Firefox"; l_flavor := None |}; ISys (bs "Windows,@unix");
     IHttpSig ex_http; ISection SecTQ; ITcpSig ex_tcp ].
 Example C06_db_load_hypotheses :
-  doc_ok ex_doc = true /\ known_doc ex_doc = false /\
+  doc_ok ex_doc = true /\
   match flatten ex_doc with
   | Some db => table_counts (db_tcp_request db) = (1, 2)%nat /\ table_counts (db_http_request db) = (1, 1)%nat /\
                db_mtu db = [(bs "Ethernet or modem", [576; 1500])] /\ length (db_ua_os db) = 2%nat
@@ -174,31 +174,21 @@ Print Assumptions C06_line_readers_equal_reference.
 (* ---------- (3') the same on ARBITRARY database texts ---------- *)
 (* for every byte string t — any spacing around `=`, blank lines, comments, CR LF or LF line ends, junk, lines in any
    order — whose trimmed lines have ASCII edges (ascii_edges: the reference reader's stated domain; it returns "-" on
-   the rest) and that is outside the two open defect classes (known_db = list-remainder or unknown-item-skipped):
+   the rest) — no other exclusion, both former defect classes are repaired —
    the loader returns exactly the database the reference reader reads from t, and rejects t when the reference does *)
 Theorem C06_db_text :
-  forall t : bytes, ascii_edges t = true -> known_db t = false -> load t = verdict_opt (spec_load t).
+  forall t : bytes, ascii_edges t = true -> load t = verdict_opt (spec_load t).
 Proof. exact load_eq_spec_load. Qed.
 Check C06_db_text :
-  forall t : bytes, ascii_edges t = true -> known_db t = false -> load t = verdict_opt (spec_load t).
+  forall t : bytes, ascii_edges t = true -> load t = verdict_opt (spec_load t).
 Print Assumptions C06_db_text.
 
-(* the bundled p0f.fp as one text lies in the domain; it is in the known class only through its ua_os line (no unknown
-   item); without that one line it is outside both classes, so C06_db_text applies to it *)
+(* the bundled p0f.fp as one text lies in the domain, so C06_db_text applies to it *)
 Theorem C06_db_text_bundled :
-  (ascii_edges bundled_text = true /\ known_db bundled_text = true /\ known_unknown_item bundled_text = false /\
-   ascii_edges bundled_text_plain = true /\ known_db bundled_text_plain = false /\
-   length (filter lossy_line bundled_lines) = 1%nat) /\
-  load bundled_text_plain = verdict_opt (spec_load bundled_text_plain).
-Proof.
-  split; [exact bundled_text_domain|].
-  apply load_eq_spec_load; [exact (proj1 (proj2 (proj2 (proj2 bundled_text_domain)))) | exact (proj1 (proj2 (proj2 (proj2 (proj2 bundled_text_domain)))))].
-Qed.
+  ascii_edges bundled_text = true /\ load bundled_text = verdict_opt (spec_load bundled_text).
+Proof. split; [exact bundled_text_domain|]. apply load_eq_spec_load. exact bundled_text_domain. Qed.
 Check C06_db_text_bundled :
-  (ascii_edges bundled_text = true /\ known_db bundled_text = true /\ known_unknown_item bundled_text = false /\
-   ascii_edges bundled_text_plain = true /\ known_db bundled_text_plain = false /\
-   length (filter lossy_line bundled_lines) = 1%nat) /\
-  load bundled_text_plain = verdict_opt (spec_load bundled_text_plain).
+  ascii_edges bundled_text = true /\ load bundled_text = verdict_opt (spec_load bundled_text).
 Print Assumptions C06_db_text_bundled.
 
 Example C06_db_text_hypotheses :
@@ -207,7 +197,7 @@ classes=win,unix
  [tcp:request]
 label =  s:unix:Linux:3.x
 sig	= *:064:0:*:mss*20,10:mss,sok,ts,nop,ws:df,id+:0
-" in ascii_edges t = true /\ known_db t = false /\ exists d, spec_load t = VOk d /\ table_counts (db_tcp_request d) = (1, 1)%nat.
+" in ascii_edges t = true /\ exists d, spec_load t = VOk d /\ table_counts (db_tcp_request d) = (1, 1)%nat.
 Proof. vm_compute. repeat split. eexists; split; reflexivity. Qed.
 
 (* ---------- (4) a text with an error is rejected as a whole ---------- *)
@@ -258,7 +248,8 @@ Theorem C06_bundled_loads_exactly :
   db_tcp_request bundled_db = db_tcp_request bundled_spec_db /\
   db_tcp_response bundled_db = db_tcp_response bundled_spec_db /\
   db_http_request bundled_db = db_http_request bundled_spec_db /\
-  db_http_response bundled_db = db_http_response bundled_spec_db.
+  db_http_response bundled_db = db_http_response bundled_spec_db /\
+  db_ua_os bundled_db = db_ua_os bundled_spec_db.
 Proof. split; [exact bundled_loads | split; [exact bundled_spec_reads | exact bundled_tables_exact]]. Qed.
 Check C06_bundled_loads_exactly :
   load_lines bundled_lines = Some bundled_db /\ spec_load_lines bundled_lines = VOk bundled_spec_db /\
@@ -266,7 +257,8 @@ Check C06_bundled_loads_exactly :
   db_tcp_request bundled_db = db_tcp_request bundled_spec_db /\
   db_tcp_response bundled_db = db_tcp_response bundled_spec_db /\
   db_http_request bundled_db = db_http_request bundled_spec_db /\
-  db_http_response bundled_db = db_http_response bundled_spec_db.
+  db_http_response bundled_db = db_http_response bundled_spec_db /\
+  db_ua_os bundled_db = db_ua_os bundled_spec_db.
 Print Assumptions C06_bundled_loads_exactly.
 
 Theorem C06_bundled_counts :
@@ -308,67 +300,62 @@ Check C06_fuel_suffices :
    shrinks parse_key_value).
 Print Assumptions C06_fuel_suffices.
 
-(* ---------- known defect class (open finding C06-list-remainder): witnesses ---------- *)
-Theorem Known_ua_os_refuted :
-  (doc_ok ua_witness = true /\ known_doc ua_witness = true /\ load (render_text ua_witness) <> flatten ua_witness) /\
-  (length (db_ua_os bundled_spec_db) = 9%nat /\ length (db_ua_os bundled_db) = 3%nat /\ existsb lossy_line bundled_lines = true).
-Proof. split; [exact ua_witness_refuted | exact bundled_ua_os_lossy]. Qed.
-Check Known_ua_os_refuted :
-  (doc_ok ua_witness = true /\ known_doc ua_witness = true /\ load (render_text ua_witness) <> flatten ua_witness) /\
-  (length (db_ua_os bundled_spec_db) = 9%nat /\ length (db_ua_os bundled_db) = 3%nat /\ existsb lossy_line bundled_lines = true).
-Print Assumptions Known_ua_os_refuted.
-
-Theorem Known_list_remainder_refuted :
+(* ---------- finding C06-list-remainder is repaired (whole_line, p0f ua_os grammar): its former witnesses agree ---------- *)
+Theorem C06_list_remainder_former_witness_agrees :
+  (doc_ok ua_witness = true /\ load (render_text ua_witness) = flatten ua_witness /\
+   (exists d, flatten ua_witness = Some d /\ length (db_ua_os d) = 3%nat)) /\
+  (length (db_ua_os bundled_spec_db) = 9%nat /\ length (db_ua_os bundled_db) = 9%nat /\
+   db_ua_os bundled_db = db_ua_os bundled_spec_db) /\
   (let t := bs "ua_os = Linux,iOS=[iPad],BSD" in
-   known_db t = true /\ (exists d, spec_load t = VOk d /\ length (db_ua_os d) = 3%nat) /\
-   (exists d, load t = Some d /\ length (db_ua_os d) = 2%nat)) /\
-  (let t := bs "classes = win, unix" in
-   known_db t = true /\ spec_load t = VErr /\ (exists d, load t = Some d /\ db_classes d = [bs "win"])) /\
-  (let t := bs "[tcp:request]x]" in known_db t = true /\ spec_load t = VErr /\ (exists d, load t = Some d)).
-Proof. split; [exact known_ua_os_text_refuted | split; [exact known_classes_text_refuted | exact known_module_text_refuted]]. Qed.
-Check Known_list_remainder_refuted :
+   load t = verdict_opt (spec_load t) /\ exists d, load t = Some d /\ length (db_ua_os d) = 3%nat) /\
+  (let t := bs "classes = win, unix" in spec_load t = VErr /\ load t = None) /\
+  (let t := bs "[tcp:request]x]" in spec_load t = VErr /\ load t = None).
+Proof.
+  split; [exact ua_witness_former_witness_agrees | split; [exact bundled_ua_os_former_witness_agrees | exact list_remainder_former_witness_agrees]].
+Qed.
+Check C06_list_remainder_former_witness_agrees :
+  (doc_ok ua_witness = true /\ load (render_text ua_witness) = flatten ua_witness /\
+   (exists d, flatten ua_witness = Some d /\ length (db_ua_os d) = 3%nat)) /\
+  (length (db_ua_os bundled_spec_db) = 9%nat /\ length (db_ua_os bundled_db) = 9%nat /\
+   db_ua_os bundled_db = db_ua_os bundled_spec_db) /\
   (let t := bs "ua_os = Linux,iOS=[iPad],BSD" in
-   known_db t = true /\ (exists d, spec_load t = VOk d /\ length (db_ua_os d) = 3%nat) /\
-   (exists d, load t = Some d /\ length (db_ua_os d) = 2%nat)) /\
-  (let t := bs "classes = win, unix" in
-   known_db t = true /\ spec_load t = VErr /\ (exists d, load t = Some d /\ db_classes d = [bs "win"])) /\
-  (let t := bs "[tcp:request]x]" in known_db t = true /\ spec_load t = VErr /\ (exists d, load t = Some d)).
-Print Assumptions Known_list_remainder_refuted.
+   load t = verdict_opt (spec_load t) /\ exists d, load t = Some d /\ length (db_ua_os d) = 3%nat) /\
+  (let t := bs "classes = win, unix" in spec_load t = VErr /\ load t = None) /\
+  (let t := bs "[tcp:request]x]" in spec_load t = VErr /\ load t = None).
+Print Assumptions C06_list_remainder_former_witness_agrees.
 
-(* open finding C06-unknown-item-skipped: an unknown module header / a key the module does not have is skipped
-   (with everything it governs) and Ok is returned; the specification rejects the text.  Third clause: the
-   correctly spelt text is outside the class and both sides agree on it. *)
-Theorem Known_unknown_item_refuted :
+(* finding C06-unknown-item-skipped is repaired (is_known_module; unknown named value is an error): a module header
+   p0f.fp does not have, a key the module does not have — the text is rejected, as the specification demands;
+   last clause: the correctly spelt text loads *)
+Theorem C06_unknown_item_former_witness_agrees :
   (let t := bs "[tcp:reqeust]
 label = s:unix:Linux:
-sig = *:64:0:*:*,*:::0" in
-   known_unknown_item t = true /\ known_db t = true /\ spec_load t = VErr /\
-   (exists d, load t = Some d /\ table_counts (db_tcp_request d) = (0, 0)%nat)) /\
+sig = *:64:0:*:*,*:::0" in spec_load t = VErr /\ load t = None) /\
   (let t := bs "[tcp:request]
 label = s:unix:Linux:
-sgi = *:64:0:*:*,*:::0" in
-   known_unknown_item t = true /\ known_db t = true /\ spec_load t = VErr /\
-   (exists d, load t = Some d /\ table_counts (db_tcp_request d) = (1, 0)%nat)) /\
+sgi = *:64:0:*:*,*:::0" in spec_load t = VErr /\ load t = None) /\
+  (let t := bs "[mtu]
+label = DSL
+sys = x
+sig = 1492" in spec_load t = VErr /\ load t = None) /\
   (let t := bs "[tcp:request]
 label = s:unix:Linux:
 sig = *:64:0:*:*,*:::0" in
-   known_db t = false /\
-   (exists d, spec_load t = VOk d /\ load t = Some d /\ table_counts (db_tcp_request d) = (1, 1)%nat)).
-Proof. split; [exact known_unknown_module_refuted | split; [exact known_unknown_key_refuted | exact unknown_item_contrast]]. Qed.
-Check Known_unknown_item_refuted :
+   exists d, spec_load t = VOk d /\ load t = Some d /\ table_counts (db_tcp_request d) = (1, 1)%nat).
+Proof. exact unknown_item_former_witness_agrees. Qed.
+Check C06_unknown_item_former_witness_agrees :
   (let t := bs "[tcp:reqeust]
 label = s:unix:Linux:
-sig = *:64:0:*:*,*:::0" in
-   known_unknown_item t = true /\ known_db t = true /\ spec_load t = VErr /\
-   (exists d, load t = Some d /\ table_counts (db_tcp_request d) = (0, 0)%nat)) /\
+sig = *:64:0:*:*,*:::0" in spec_load t = VErr /\ load t = None) /\
   (let t := bs "[tcp:request]
 label = s:unix:Linux:
-sgi = *:64:0:*:*,*:::0" in
-   known_unknown_item t = true /\ known_db t = true /\ spec_load t = VErr /\
-   (exists d, load t = Some d /\ table_counts (db_tcp_request d) = (1, 0)%nat)) /\
+sgi = *:64:0:*:*,*:::0" in spec_load t = VErr /\ load t = None) /\
+  (let t := bs "[mtu]
+label = DSL
+sys = x
+sig = 1492" in spec_load t = VErr /\ load t = None) /\
   (let t := bs "[tcp:request]
 label = s:unix:Linux:
 sig = *:64:0:*:*,*:::0" in
-   known_db t = false /\
-   (exists d, spec_load t = VOk d /\ load t = Some d /\ table_counts (db_tcp_request d) = (1, 1)%nat)).
-Print Assumptions Known_unknown_item_refuted.
+   exists d, spec_load t = VOk d /\ load t = Some d /\ table_counts (db_tcp_request d) = (1, 1)%nat).
+Print Assumptions C06_unknown_item_former_witness_agrees.
